@@ -60,8 +60,9 @@ def array_cases(draw):
 def arrays_of(c):
     n = c["n"]
     if "obs" in c:
-        o = np.array(c["obs"], float)
-        p = np.array(c["pred"], float)
+        # magnitudes 1e-6 .. 1e7 (the quantifier's range): round away denormal-scale values such as 4e-111
+        o = np.round(np.array(c["obs"], float), 9)
+        p = np.round(np.array(c["pred"], float), 9)
     else:
         rng = np.random.default_rng(c["seed"])
         o = rng.normal(10, 4, n) * c["scale"]
@@ -227,12 +228,15 @@ def judge_arrays(c, rec):
         for i in c["rbad"]:
             if i < m:
                 ro[i] = np.nan
+        okr = np.isfinite(ro) & np.isfinite(rp)
+        mm = int(okr.sum())
+        if mm < 2:  # a reporting frame without two finite pairs is degenerate
+            rec.case(c, False, cls + ["reporting-degenerate"])
+            return
         idx = pd.date_range("2020-01-01", periods=m, freq="D" if c["freq"] != "hourly" else "h", tz="UTC")
         rdf = pd.DataFrame({"observed": ro, "predicted": rp}, index=idx)
         rm = ReportingMetrics(baseline_metrics=bm, reporting_df=rdf, data_frequency=c["freq"], confidence_level=c["conf"], t_tail=c["tail"])
         rd = rm.model_dump()
-        okr = np.isfinite(ro) & np.isfinite(rp)
-        mm = int(okr.sum())
         so, sp = float(ro[okr].sum()), float(rp[okr].sum())
         sscale = abs(so) + abs(sp)
         if rd["n"] != mm:
